@@ -181,8 +181,26 @@ macro_rules! timed_runner {
 
       type Src = $subject;
 
-      /// (timed OP (labels L...)) ; OP as in the model's `top`
+      /// interval_at turns an Instant into a Duration with the real clock: when the machine was slow
+      /// between the harness computing `at` and the crate reading the clock, the requested delay is
+      /// no longer the case's; such a run is repeated
       pub fn run(body: &[Sexp]) -> String {
+        let mut r = run_once(body);
+        if body[0].head() == "interval_at" {
+          let want = body[0].args()[0].int() as u64;
+          for _ in 0..20 {
+            let drift = TIMER_REQS.with(|q| q.borrow().first().map_or(false, |d| *d != want));
+            if !drift {
+              break;
+            }
+            r = run_once(body);
+          }
+        }
+        r
+      }
+
+      /// (timed OP (labels L...)) ; OP as in the model's `top`
+      fn run_once(body: &[Sexp]) -> String {
         install_timer();
         NOW.with(|n| n.set(0));
         TIMER_REQS.with(|r| r.borrow_mut().clear());
